@@ -1,2 +1,79 @@
-(* C17 - theorems follow in this commit series *)
-From TW Require Import Bytes.
+(* C17 - Response writes the rendered page or exactly one error page, returns the error, and with
+   debug off the body leaks nothing: it does not depend on the failure at all.
+   Model: Template.String / Template.Response / errorPage of template.go and textwire.go (Model/Api.v),
+   the built-in page regenerated from textwire/default-error-page.tw on every run (Gen/GenMisc.v). *)
+From TW Require Import Bytes Values Eval Render Api GenMisc ErrorPage Response.
+
+Theorem C17_success_writes_the_page cx cfg tpl name data out :
+  template_string cx cfg tpl name data = StrOk out ->
+  template_response cx cfg tpl name data = RespOk out.
+Proof. exact (response_success cx cfg tpl name data out). Qed.
+Print Assumptions C17_success_writes_the_page.
+
+Theorem C17_no_error_only_on_success cx cfg tpl name data out :
+  template_response cx cfg tpl name data = RespOk out ->
+  template_string cx cfg tpl name data = StrOk out.
+Proof. exact (response_ok_is_string cx cfg tpl name data out). Qed.
+Print Assumptions C17_no_error_only_on_success.
+
+Theorem C17_failure_returns_an_error cx cfg tpl name data e :
+  template_string cx cfg tpl name data = StrErr e ->
+  forall b, template_response cx cfg tpl name data <> RespOk b.
+Proof. exact (response_failure_returns_error cx cfg tpl name data e). Qed.
+Print Assumptions C17_failure_returns_an_error.
+
+(* custom page configured and debug off: the body is that page rendered with no data, or nothing *)
+Theorem C17_custom_page_when_configured cx cfg tpl name data e :
+  template_string cx cfg tpl name data = StrErr e ->
+  uses_custom_page cfg = true ->
+  match template_string cx cfg tpl (c_errpage cfg) [] with
+  | StrOk page => template_response cx cfg tpl name data = RespFail page e
+  | StrErr e2 => template_response cx cfg tpl name data = RespFailOther [] e2
+  | _ => resp_body (template_response cx cfg tpl name data) = None
+  end.
+Proof. exact (response_failure_custom cx cfg tpl name data e). Qed.
+Print Assumptions C17_custom_page_when_configured.
+
+Theorem C17_builtin_page_otherwise cx cfg tpl name data e :
+  template_string cx cfg tpl name data = StrErr e ->
+  uses_custom_page cfg = false ->
+  match builtin_error_page cx cfg e with
+  | RenderOk page => template_response cx cfg tpl name data = RespFail page e
+  | RenderErr ln msg => template_response cx cfg tpl name data = RespFailOther [] (mkErr ln [] msg)
+  | _ => resp_body (template_response cx cfg tpl name data) = None
+  end.
+Proof. exact (response_failure_builtin cx cfg tpl name data e). Qed.
+Print Assumptions C17_builtin_page_otherwise.
+
+(* the built-in page with debug off is one constant, whatever the error *)
+Theorem C17_quiet_page_is_constant cx dir ext tpl name data e :
+  let cfg := mkConfig dir ext [] false in
+  template_string cx cfg tpl name data = StrErr e ->
+  template_response cx cfg tpl name data = RespFail quiet_page e.
+Proof. exact (response_quiet cx dir ext tpl name data e). Qed.
+Print Assumptions C17_quiet_page_is_constant.
+
+(* non-interference: with debug off any two failures give the same body, so the body cannot
+   contain the message, the path or the line of either *)
+Theorem C17_no_leak cx cfg tpl n1 d1 e1 n2 d2 e2 :
+  c_debug cfg = false ->
+  template_string cx cfg tpl n1 d1 = StrErr e1 ->
+  template_string cx cfg tpl n2 d2 = StrErr e2 ->
+  resp_body (template_response cx cfg tpl n1 d1) = resp_body (template_response cx cfg tpl n2 d2).
+Proof. exact (response_no_leak cx cfg tpl n1 d1 e1 n2 d2 e2). Qed.
+Print Assumptions C17_no_leak.
+
+(* debug on: the built-in page is shown (a configured custom page is bypassed) and it carries
+   the path, the line and the message of the failure *)
+Theorem C17_debug_page_shows_the_error cx dir ext page tpl name data e :
+  let cfg := mkConfig dir ext page true in
+  template_string cx cfg tpl name data = StrErr e ->
+  exists body, template_response cx cfg tpl name data = RespFail body e /\
+    has_sub (e_path e) body /\ has_sub (Z_to_dec (wrap64 (Z.of_nat (e_line e)))) body /\
+    has_sub (e_msg e) body.
+Proof. exact (response_debug_shows cx dir ext page tpl name data e). Qed.
+Print Assumptions C17_debug_page_shows_the_error.
+
+(* non-vacuity: the quiet page is a real page *)
+Example C17_quiet_page_nonempty : quiet_page <> [].
+Proof. exact quiet_page_nonempty. Qed.
